@@ -298,3 +298,26 @@ package interpreter
 //@     invariant [prefix] len(s.Receivers) >= old(len(s.Receivers)) && forall(j, 0, old(len(s.Receivers)), s.Receivers[j] == old(s.Receivers[j]))
 //@     invariant [new-receivers] forall(j, old(len(s.Receivers)), len(s.Receivers), s.Receivers[j].Monetary != nil && val(s.Receivers[j].Monetary) > 0 && fresh(ref(s.Receivers[j].Monetary)))
 //@     invariant [state] varsOk(s) && receiversOk(s)
+
+// ---------------------------------------------------------------- pairing senders with receivers
+
+//@ spec sendersPositive(s) = forall(j, 0, len(s), s[j].Monetary != nil && val(s[j].Monetary) > 0)
+
+//@ func Reconcile
+//@   requires [positive] {C02} sendersPositive(senders) && sendersPositive(receivers)
+//@   requires [balanced] {C03} sumMon(senders, len(senders)) == sumMon(receivers, len(receivers))
+//@   ensures [no-error] {C03,C12} err == nil
+//@   ensures [amount-positive] {C02} forall(k, 0, len(result), result[k].Amount != nil && val(result[k].Amount) > 0)
+//@   ensures [asset] {C02} forall(k, 0, len(result), result[k].Asset == asset)
+//@   ensures [dest-not-kept] {C02,C05} forall(k, 0, len(result), result[k].Destination != KEPT_ADDR)
+//@   ensures [conservation] {C03,C05,C07} sumAmounts(result, len(result)) == old(sumMonNot(receivers, len(receivers), KEPT_ADDR))
+//@   ensures [amounts-owned] {C11} forall(k, 0, len(result), fresh(ref(result[k].Amount)))
+//@   ensures [inputs-untouched] {C03,C11} heapsame(bigint)
+//@   modifies elems(senders), elems(receivers)
+//@   loop 1
+//@     invariant [stacks-positive] {C02} sendersPositive(senders) && sendersPositive(receivers)
+//@     invariant [postings-ok] {C02} forall(k, 0, len(postings), postings[k].Amount != nil && val(postings[k].Amount) > 0 && fresh(ref(postings[k].Amount)) && postings[k].Asset == asset && postings[k].Destination != KEPT_ADDR)
+//@     invariant [postings-distinct] forall(k, 0, len(postings), forall(l, 0, len(postings), k != l ==> postings[k].Amount != postings[l].Amount))
+//@     invariant [postings-apart] forall(k, 0, len(postings), forall(j, 0, len(senders), postings[k].Amount != senders[j].Monetary) && forall(j, 0, len(receivers), postings[k].Amount != receivers[j].Monetary))
+//@     invariant [balance] {C03,C07} sumMon(senders, len(senders)) == sumMon(receivers, len(receivers))
+//@     invariant [posted] {C03,C07} sumAmounts(postings, len(postings)) + sumMonNot(receivers, len(receivers), KEPT_ADDR) == old(sumMonNot(receivers, len(receivers), KEPT_ADDR))
